@@ -138,7 +138,7 @@ func WorkerMain(t *testing.T) {
 		seed := SeedFor(base, uint64(first+i))
 		// write-ahead: which seed is running, so that a process death is attributable
 		_ = os.WriteFile(cur, []byte(fmt.Sprintf("%d", seed)), 0o644)
-		res := Execute(t, p, seed, tier, nil, false)
+		res := Execute(t, p, seed, tier, Generate, false)
 		wo.Runs++
 		wo.SimTimeMs += res.SimTimeMs
 		wo.Steps += res.Steps
@@ -233,8 +233,8 @@ func replayMain(t *testing.T, p *Property, path, out string) {
 		os.Exit(2)
 	}
 	tape := rf.Tape
-	if tape == nil && !rf.Generate {
-		tape = []int{}
+	if rf.Generate {
+		tape = Generate
 	}
 	if rf.Tier == "" {
 		rf.Tier = "quick"
